@@ -1,4 +1,5 @@
 import CppUModel.Proofs.Cache
+import CppUModel.Proofs.CacheHeap
 /-!
 # C18 — the string buffer cache never aliases live buffers and gives everything back
 
@@ -562,4 +563,394 @@ example : Fresh sample (.alloc 10 8 9) := by simp [Fresh]; decide
 example : returned (alloc sample 10 8 9).2 = [3] := by decide   -- reuse from the free list
 example : returned (alloc sample 40 8 9).2 = [9] := by decide   -- other class: fresh buffer
 
+
+/-! ## Growth round: global object, strings, whole histories -/
+
+/-! ### the global cache object, its allocator adaptor, strings -/
+
+/-- `~GlobalSimpleStringCache()` re-installs the allocator that was current at construction, whatever
+    has been installed in between. -/
+theorem gdestroy_restores_saved (cur a : AllocRef) (t : Nat) :
+    (gdestroy (gswap (gcreate cur t) a)).1 = cur := rfl
+
+/-- while the global cache exists, strings go through its adaptor; the blocks come from (and go back to)
+    the allocator that was current at construction, also after somebody installed another one -/
+theorem gcreate_installs (cur : AllocRef) (t : Nat) (a : AllocRef) :
+    (gcreate cur t).strAlloc = .cache ∧ (gcreate cur t).underlying = cur ∧
+      (gswap (gcreate cur t) a).underlying = cur := ⟨rfl, rfl, rfl⟩
+
+/-- destruction of the global cache object in any state returns everything -/
+theorem gdestroy_returns_everything (g : GState) : (gdestroy g).2.1.liveIds = [] :=
+  globalDestroy_returns_everything g.cache
+
+/-- the adaptor's `name()` is the regenerated literal; the other two names are the saved allocator's -/
+theorem adaptorNames_spec (a f : String) : adaptorNames a f = [Gen.Cache.adaptorName, a, f] := rfl
+
+theorem run_append (s : State) (a b : List Op) :
+    run s (a ++ b) = ((run (run s a).1 b).1, (run s a).2 ++ (run (run s a).1 b).2) := by
+  induction a generalizing s with
+  | nil => simp [run]
+  | cons op a ih => simp only [List.cons_append, run, ih]; simp [List.append_assoc]
+
+/-- **Whole life of a global cache object**: any history from construction followed by destruction
+    returns every underlying block exactly once (the multiset of frees equals the multiset of allocations,
+    node table included) and holds nothing afterwards. -/
+theorem history_then_globalDestroy (t : Nat) (ops : List Op) :
+    let r := run (create t).1 ops
+    let d := globalDestroy r.1
+    (freed (r.2 ++ d.2)).Perm (t :: allocd r.2) ∧ d.1.liveIds = [] := by
+  refine ⟨?_, globalDestroy_returns_everything _⟩
+  have h1 := run_conservation ops (create t).1
+  have h2 := globalDestroy_conservation (run (create t).1 ops).1
+  have h3 : (create t).1.liveIds = [t] := by
+    simp [create, State.liveIds, State.blocks, Class.blocks, Gen.Cache.classSizes]
+  rw [h3] at h1
+  rw [freed_append]
+  apply perm_of_count; intro x
+  have := h1.count_eq x; have := h2.count_eq x
+  simp [List.count_append, List.count_cons] at *; omega
+
+/-- `SimpleString::operator+=`: the buffer handed out for the longer string is never the buffer that is
+    about to be released (the new one is obtained first) -/
+theorem stringAppend_fresh_buffer (s : State) (oldMem len k n m : Nat) (hinv : s.liveIds.Nodup)
+    (hf : Fresh s (.alloc (stringBufferSize (len + k)) n m)) (hold : oldMem ∈ s.usedMems) :
+    ∀ r ∈ returned (alloc s (stringBufferSize (len + k)) n m).2, r ≠ oldMem := by
+  intro r hr h
+  exact alloc_not_in_use s _ n m hinv hf r hr (h ▸ hold)
+
+/-- a string of `len` characters gets a buffer with room for the terminator -/
+theorem string_buffer_fits (s : State) (len n m : Nat) (hok : SizesOk s) :
+    ∃ b : Block, (alloc s (stringBufferSize len) n m).2.getLast? = some (.ret b.mem) ∧ len + 1 ≤ b.msize := by
+  obtain ⟨b, h1, _, h3, _⟩ := alloc_size_ge s (stringBufferSize len) n m hok
+  exact ⟨b, h1, h3⟩
+
+/-- `hasFreeBlocksOfSize` is exactly "the next `alloc` of that size asks the allocator for nothing" -/
+theorem hasFree_iff_no_underlying_alloc (s : State) (size n m : Nat) (hok : SizesOk s) (hc : isCached size = true) :
+    hasFree s size = true ↔ allocd (alloc s size n m).2 = [] := by
+  obtain ⟨c, hcc, _, _⟩ := indexFor_fits s.classes size hok.1 hc
+  unfold hasFree alloc
+  simp only [hc, if_true, hcc]
+  unfold allocCached
+  cases hfr : c.free with
+  | nil => simp [allocd, createEvs]
+  | cons b rest => simp [allocd]
+
+/-- **No aliasing along a whole history**: at every step of every history from construction, what
+    `alloc` returns is not handed out at that moment. -/
+theorem run_no_aliasing (t : Nat) (pre : List Op) (size n m : Nat)
+    (hfresh : FreshAll (create t).1 (pre ++ [.alloc size n m])) :
+    ∀ r ∈ returned (alloc (run (create t).1 pre).1 size n m).2, r ∉ (run (create t).1 pre).1.usedMems := by
+  have hsplit : ∀ (a : List Op) (s : State) (op : Op), FreshAll s (a ++ [op]) → FreshAll s a ∧ Fresh (run s a).1 op := by
+    intro a
+    induction a with
+    | nil => intro s op h; exact ⟨trivial, by simpa [FreshAll, run] using h.1⟩
+    | cons x a ih =>
+      intro s op h
+      obtain ⟨h1, h2⟩ := h
+      obtain ⟨k1, k2⟩ := ih _ op h2
+      exact ⟨⟨h1, k1⟩, by simpa [run] using k2⟩
+  obtain ⟨h1, h2⟩ := hsplit pre _ _ hfresh
+  exact alloc_not_in_use _ size n m (inv_run pre _ (inv_create t) h1).1 h2
+
+
+example : FreshAll (create 1).1 ([.alloc 10 2 3, .dealloc 3 10] ++ [.alloc 20 4 5]) := by
+  simp [FreshAll, Fresh]; decide
+example : (gdestroy (gswap (gcreate .orig 1) .other)).1 = .orig := by decide
+example : hasFree sample 10 = true ∧ hasFree sample 40 = false := by decide
+example : sample.usedMems = [5, 7] ∧ returned (alloc sample (stringBufferSize (3 + 5)) 8 9).2 = [3] := by decide
 end Cache
+
+/-! ## The pointer level: the member functions as regenerated from the C++ source
+
+`Gen/CacheCode.lean` holds `alloc`, `dealloc`, `clearCache`, `clearAllIncludingCurrentlyUsedMemory` and
+`getIndexForCache` (callees inlined) in the statement language of `Model/CacheSyntax.lean`, regenerated from
+`SimpleStringInternalCache.cpp` on every run; `Model/CacheHeap.lean` interprets them over a heap of
+`SimpleStringMemoryBlock` cells.  The theorems below are ABOUT THOSE REGENERATED PROGRAMS (an edit of the C++
+that changes a statement changes the program and breaks them). -/
+namespace Cache.Heap
+open Cache Gen.Cache.Code ListLemmas
+
+theorem allocH_refines (f : Nat) (hs : HState) (s : State) (size n m : Nat)
+    (hrep : Rep hs s) (hinv : Inv s) (hf : FreshH s (.alloc size n m)) :
+    ∃ hs', allocH (f + 40) hs size n m = .ok (hs', (alloc s size n m).2) ∧ Rep hs' (alloc s size n m).1 := by
+  obtain ⟨⟨hn, hm, hnm⟩, hn0⟩ := hf
+  have hfreshnode : ∀ (j : Nat) (d : Class), s.classes[j]? = some d → ∀ b ∈ d.free ++ d.used, b.node ≠ n ∧ b.node ≠ m := by
+    intro j d hd b hb
+    have := block_node_live s j d hd b hb
+    exact ⟨fun h => hn (h ▸ this), fun h => hm (h ▸ this)⟩
+  have hfreshunc : ∀ b ∈ s.uncached, b.node ≠ n ∧ b.node ≠ m := by
+    intro b hb
+    have := uncached_node_live s b hb
+    exact ⟨fun h => hn (h ▸ this), fun h => hm (h ▸ this)⟩
+  unfold alloc
+  by_cases hcached : isCached size = true
+  · have hsz : size ≤ 256 := by unfold isCached Gen.Cache.cachedLimit at hcached; exact of_decide_eq_true hcached
+    simp only [hcached, if_true]
+    obtain ⟨c, hc, _, _⟩ := indexFor_fits s.classes size hinv.2.1 hcached
+    rw [hc]; simp only
+    obtain ⟨nd, hnd⟩ := node_of_class hs s hrep _ c hc
+    have hi := indexForH_eq hs s hrep size
+    obtain ⟨hsize, hfl, hul⟩ := hrep.cls _ nd c hnd hc
+    unfold allocCached
+    cases hfr : c.free with
+    | nil =>
+      rw [hfr] at hfl
+      have hfree0 : nd.free = 0 := hfl
+      have hev : createEvs c.size n m ++ [Ev.ret m] = [.ualloc 16 n, .ualloc nd.size m, .ret m] := by
+        simp [createEvs, hsize, Gen.Cache.blockStructBytes]
+      rw [hev]
+      refine ⟨_, allocH_new f hs size n m _ nd hsz hi hnd hfree0 hnm, ?_⟩
+      simp only
+      apply rep_set_class hs s hrep _ c _ nd _ hc hnd
+      · intro j d hj hd b hb
+        obtain ⟨h1, h2⟩ := hfreshnode j d hd b hb
+        simp [setCell, h1, h2]
+      · intro b hb
+        obtain ⟨h1, h2⟩ := hfreshunc b hb
+        simp [setCell, h1, h2]
+      · exact hsize
+      · simp only [hfr]; exact hfree0
+      · refine ⟨hn0, rfl, nd.used, by simp [setCell], ?_⟩
+        apply isList_frame hs.cells _ _ _ _ hul
+        intro b hb
+        obtain ⟨h1, h2⟩ := hfreshnode _ c hc b (by simp [hb])
+        simp [setCell, h1, h2]
+    | cons b rest =>
+      rw [hfr] at hfl
+      obtain ⟨hp0, hpb, nx, hcell, hrest⟩ := hfl
+      refine ⟨_, allocH_reserve f hs size n m _ nd nd.free nx b.mem hsz hi hnd rfl hp0 hcell, ?_⟩
+      obtain ⟨hnodup, hoth, hunc⟩ := class_separate s hinv.1 _ c hc
+      rw [hfr] at hnodup
+      simp only [List.cons_append, List.map_cons, List.nodup_cons, List.map_append, List.mem_append, List.mem_map, not_or, not_exists, not_and] at hnodup
+      simp only
+      apply rep_set_class hs s hrep _ c _ nd _ hc hnd
+      · intro j d hj hd x hx
+        have := hoth j d hj hd x hx b (by simp [hfr])
+        simp [setCell, hpb, this]
+      · intro x hx
+        have := hunc x hx b (by simp [hfr])
+        simp [setCell, hpb, this]
+      · exact hsize
+      · apply isList_frame hs.cells _ _ _ _ hrest
+        intro x hx
+        have : x.node ≠ b.node := fun h => hnodup.1.1 x hx h
+        simp [setCell, hpb, this]
+      · refine ⟨hp0, hpb, nd.used, by simp [setCell], ?_⟩
+        apply isList_frame hs.cells _ _ _ _ hul
+        intro x hx
+        have : x.node ≠ b.node := fun h => hnodup.1.2 x hx h
+        simp [setCell, hpb, this]
+  · have hsz : ¬ size ≤ 256 := fun h => hcached (by unfold isCached Gen.Cache.cachedLimit; exact decide_eq_true h)
+    simp only [hcached]
+    have hev : createEvs size n m ++ [Ev.ret m] = [.ualloc 16 n, .ualloc size m, .ret m] := by
+      simp [createEvs, Gen.Cache.blockStructBytes]
+    rw [hev]
+    refine ⟨_, allocH_uncached f hs size n m hsz hnm, ?_⟩
+    refine ⟨hrep.len, ?_, ?_, hrep.warned⟩
+    · intro j nd c hnj hcj
+      obtain ⟨k1, k2, k3⟩ := hrep.cls j nd c hnj hcj
+      refine ⟨k1, isList_frame hs.cells _ _ _ ?_ k2, isList_frame hs.cells _ _ _ ?_ k3⟩
+      · intro b hb
+        obtain ⟨h1, h2⟩ := hfreshnode j c hcj b (by simp [hb])
+        simp [setCell, h1, h2]
+      · intro b hb
+        obtain ⟨h1, h2⟩ := hfreshnode j c hcj b (by simp [hb])
+        simp [setCell, h1, h2]
+    · refine ⟨hn0, rfl, hs.nonCached, by simp [setCell], ?_⟩
+      apply isList_frame hs.cells _ _ _ _ hrep.unc
+      intro b hb
+      obtain ⟨h1, h2⟩ := hfreshunc b hb
+      simp [setCell, h1, h2]
+
+theorem rep_create (t : Nat) : Rep createH (create t).1 := by
+  refine ⟨by simp [createH, create], ?_, rfl, rfl⟩
+  intro i nd c hn hc
+  simp only [createH, create, List.getElem?_map] at hn hc
+  cases h : Gen.Cache.classSizes[i]? with
+  | none => simp [h] at hn
+  | some sz =>
+    simp [h] at hn hc
+    subst hn; subst hc
+    exact ⟨rfl, rfl, rfl⟩
+
+/-- `dealloc`, both branches -/
+theorem deallocH_refines (f : Nat) (hs : HState) (s : State) (m size : Nat)
+    (hrep : Rep hs s) (hinv : Inv s) (hfuel : s.blocks.length ≤ f) :
+    ∃ hs', deallocH (f + 60) hs m size = .ok (hs', (dealloc s m size).2) ∧ Rep hs' (dealloc s m size).1 := by
+  unfold dealloc
+  by_cases hcached : isCached size = true
+  · simp only [hcached, if_true]
+    obtain ⟨c, hc, _, _⟩ := indexFor_fits s.classes size hinv.2.1 hcached
+    rw [hc]
+    exact deallocH_cached_refines f hs s m size hrep hinv hcached c hc
+      (Nat.le_trans (free_length_le s _ c hc).2 hfuel)
+  · simp only [hcached]
+    exact deallocH_uncached_refines f hs s m size hrep hinv hcached (Nat.le_trans (uncached_length_le s) hfuel)
+
+/-- **Refinement, one operation.**  The member functions as regenerated from the C++ source, run at
+    pointer level on a heap that represents the list-level state, never touch a dead or NULL pointer,
+    terminate, produce exactly the allocator traffic / return value / warning of the list model, and leave a
+    heap that represents the list model's next state. -/
+theorem stepH_refines (f : Nat) (hs : HState) (s : State) (op : Op)
+    (hrep : Rep hs s) (hinv : Inv s) (hf : FreshH s op) (hfuel : s.blocks.length ≤ f) :
+    ∃ hs', stepH (f + 60) hs op = .ok (hs', (step s op).2) ∧ Rep hs' (step s op).1 := by
+  cases op with
+  | alloc sz n m =>
+    have := allocH_refines (f + 20) hs s sz n m hrep hinv hf
+    simpa [stepH, step, Nat.add_assoc] using this
+  | dealloc m sz => exact deallocH_refines f hs s m sz hrep hinv hfuel
+  | clearCache =>
+    have := clearCacheH_refines (f + 10) hs s hrep hinv (by omega)
+    simpa [stepH, step, Nat.add_assoc] using this
+  | clearAll => exact clearAllH_refines f hs s hrep hinv hfuel
+
+/-- run a history at pointer level -/
+def runH (fuel : Nat) : HState → List Op → Except String (HState × List Ev)
+  | hs, [] => .ok (hs, [])
+  | hs, op :: ops =>
+    match stepH fuel hs op with
+    | .ok (hs1, e1) =>
+      (match runH fuel hs1 ops with
+       | .ok (hs2, e2) => .ok (hs2, e1 ++ e2)
+       | .error m => .error m)
+    | .error m => .error m
+
+def FreshAllH : State → List Op → Prop
+  | _, [] => True
+  | s, op :: ops => FreshH s op ∧ FreshAllH (step s op).1 ops
+
+theorem freshAll_of_freshAllH : ∀ (ops : List Op) (s : State), FreshAllH s ops → FreshAll s ops
+  | [], _, _ => trivial
+  | op :: ops, s, h => by
+    refine ⟨?_, freshAll_of_freshAllH ops _ h.2⟩
+    cases op <;> first | exact h.1.1 | trivial
+
+theorem table_step (s : State) (op : Op) : (step s op).1.table = s.table := by
+  cases op with
+  | alloc sz n m =>
+    simp only [step, alloc]; split
+    · split
+      · rfl
+      · unfold allocCached; split <;> rfl
+    · rfl
+  | dealloc m sz =>
+    simp only [step, dealloc]; split
+    · split
+      · rfl
+      · unfold deallocCached; split
+        · rfl
+        · unfold warnOnce; split <;> rfl
+    · unfold deallocUncached; split
+      · rfl
+      · unfold warnOnce; split <;> rfl
+  | clearCache => rfl
+  | clearAll => rfl
+
+theorem liveIds_length (s : State) : s.liveIds.length = s.table.toList.length + 2 * s.blocks.length := by
+  unfold State.liveIds
+  rw [List.length_append]
+  congr 1
+  induction s.blocks with
+  | nil => rfl
+  | cons b l ih => simp [List.flatMap_cons, Block.ids, ih]; omega
+
+theorem allocd_step_le (s : State) (op : Op) : (allocd (step s op).2).length ≤ 2 := by
+  cases op with
+  | alloc sz n m =>
+    simp only [step, alloc]; split
+    · split
+      · simp [allocd]
+      · unfold allocCached; split <;> simp [allocd, createEvs]
+    · simp [allocd, createEvs]
+  | dealloc m sz => rw [allocd_of_not_alloc s _ (by intros; simp)]; simp
+  | clearCache => rw [allocd_of_not_alloc s _ (by intros; simp)]; simp
+  | clearAll => rw [allocd_of_not_alloc s _ (by intros; simp)]; simp
+
+/-- one operation adds at most one block -/
+theorem blocks_length_step (s : State) (op : Op) : (step s op).1.blocks.length ≤ s.blocks.length + 1 := by
+  have h := (step_conservation s op).length_eq
+  have h1 := liveIds_length s
+  have h2 := liveIds_length (step s op).1
+  have h3 := allocd_step_le s op
+  rw [table_step] at h2
+  simp only [List.length_append] at h
+  omega
+
+/-- **Refinement, whole histories.**  From construction, over any history of any length (fresh non-NULL
+    ids from the allocator), the pointer-level run of the regenerated code succeeds (no dead pointer is
+    touched, every list walk ends) and produces exactly the list model's event trace; the final heap
+    represents the list model's final state.  Hence every list-level theorem of this file
+    (conservation, no aliasing, sizes, clearAll, unknown release) holds of what the source says. -/
+theorem runH_refines : ∀ (ops : List Op) (f : Nat) (hs : HState) (s : State),
+    Rep hs s → Inv s → FreshAllH s ops → s.blocks.length + ops.length ≤ f →
+    ∃ hs', runH (f + 60) hs ops = .ok (hs', (run s ops).2) ∧ Rep hs' (run s ops).1
+  | [], _, hs, _, hrep, _, _, _ => ⟨hs, rfl, hrep⟩
+  | op :: ops, f, hs, s, hrep, hinv, hfr, hfuel => by
+    simp only [List.length_cons] at hfuel
+    obtain ⟨hs1, h1, hrep1⟩ := stepH_refines f hs s op hrep hinv hfr.1 (by omega)
+    have hfa := freshAll_of_freshAllH (op :: ops) s hfr
+    have hinv1 := inv_step s op hinv hfa.1
+    have hb := blocks_length_step s op
+    obtain ⟨hs2, h2, hrep2⟩ := runH_refines ops f hs1 (step s op).1 hrep1 hinv1 hfr.2 (by omega)
+    refine ⟨hs2, ?_, by simpa [run] using hrep2⟩
+    simp only [runH, h1, h2, run]
+
+theorem history_refines (t : Nat) (ops : List Op) (f : Nat) (hfr : FreshAllH (create t).1 ops)
+    (hfuel : ops.length ≤ f) :
+    ∃ hs', runH (f + 60) createH ops = .ok (hs', (run (create t).1 ops).2) ∧
+      Rep hs' (run (create t).1 ops).1 :=
+  runH_refines ops f createH (create t).1 (rep_create t) (inv_create t) hfr (by
+    have : (create t).1.blocks.length = 0 := by
+      simp [create, State.blocks, Class.blocks, Gen.Cache.classSizes]
+    omega)
+
+
+theorem list_len5 {α} : ∀ (l : List α), l.length = 5 → ∃ a b c d e, l = [a, b, c, d, e]
+  | [a, b, c, d, e], _ => ⟨a, b, c, d, e, rfl⟩
+  | [], h => by simp at h
+  | [_], h => by simp at h
+  | [_, _], h => by simp at h
+  | [_, _, _], h => by simp at h
+  | [_, _, _, _], h => by simp at h
+  | _ :: _ :: _ :: _ :: _ :: _ :: _, h => by simp at h
+
+/-- **`getIndexForCache` as regenerated (the C++ loop, run by the interpreter) is `indexFor`**, for every
+    size — including the sizes above the cached limit, where the loop runs out and returns 0. -/
+theorem getIndexH_eq (f : Nat) (hs : HState) (size : Nat)
+    (hsizes : hs.nodes.map (·.size) = Gen.Cache.classSizes) :
+    getIndexH (f + 30) hs size = .ok (indexForH hs.nodes size) := by
+  obtain ⟨a, b, c, d, e, hn⟩ := list_len5 hs.nodes (by
+    have := congrArg List.length hsizes; simpa [Gen.Cache.classSizes] using this)
+  have hsz := hsizes
+  rw [hn] at hsz
+  · simp only [List.map_cons, List.map_nil, Gen.Cache.classSizes, List.cons.injEq, and_true] at hsz
+    obtain ⟨ha, hb, hc, hd, he⟩ := hsz
+    by_cases h1 : size ≤ 32
+    · simp [getIndexH, call, getIndexProg, exec, execSimple, evalE, evalB, params, setLocal, nodeAt, hn, ha, h1, indexForH,
+        List.findIdx?_cons]
+    · by_cases h2 : size ≤ 64
+      · simp [getIndexH, call, getIndexProg, exec, execSimple, evalE, evalB, params, setLocal, nodeAt, hn, ha, hb, h1, h2,
+          indexForH, List.findIdx?_cons]
+      · by_cases h3 : size ≤ 96
+        · simp [getIndexH, call, getIndexProg, exec, execSimple, evalE, evalB, params, setLocal, nodeAt, hn, ha, hb, hc, h1,
+            h2, h3, indexForH, List.findIdx?_cons]
+        · by_cases h4 : size ≤ 128
+          · simp [getIndexH, call, getIndexProg, exec, execSimple, evalE, evalB, params, setLocal, nodeAt, hn, ha, hb, hc, hd,
+              h1, h2, h3, h4, indexForH, List.findIdx?_cons]
+          · by_cases h5 : size ≤ 256
+            · simp [getIndexH, call, getIndexProg, exec, execSimple, evalE, evalB, params, setLocal, nodeAt, hn, ha, hb, hc,
+                hd, he, h1, h2, h3, h4, h5, indexForH, List.findIdx?_cons]
+            · simp [getIndexH, call, getIndexProg, exec, execSimple, evalE, evalB, params, setLocal, nodeAt, hn, ha, hb, hc,
+                hd, he, h1, h2, h3, h4, h5, indexForH, List.findIdx?_cons]
+
+/-! ### non-vacuity -/
+
+example : FreshAllH (create 1).1 [.alloc 10 2 3, .alloc 20 4 5, .alloc 300 6 7, .dealloc 3 10, .clearCache, .clearAll] := by
+  simp [FreshAllH, FreshH, Fresh]; decide
+
+/-- the reference decomposition is the regenerated code (tripwires for every list-manipulating function) -/
+theorem regenerated_code_is_reference :
+    deallocProg = deallocRef ∧ clearCacheProg = clearCacheRef ∧ clearAllProg = clearAllRef :=
+  ⟨deallocProg_eq_ref, clearCacheProg_eq_ref, clearAllProg_eq_ref⟩
+
+end Cache.Heap
